@@ -1629,6 +1629,21 @@ class Frame:
             res, final = _run_inlined(sub, fi, args, kwargs, self_cls, st)
         finally:
             Event.prefix = saved
+        # objects are passed by reference: a helper that edits an argument in place (`t.add_x(...)` as a statement)
+        # has edited the caller's object.  Where the argument is a plain local of the caller and the helper never
+        # rebinds the parameter, the caller's local now denotes the edited object.
+        if isinstance(node, ast.Call) and final is not None:
+            params = [a.arg for a in fi.node.args.posonlyargs + fi.node.args.args]
+            offset = len(args) - len(node.args)
+            rebound = {x.id for n in ast.walk(fi.node) for x in ast.walk(n) if isinstance(x, ast.Name) and isinstance(x.ctx, (ast.Store, ast.Del))}
+            for j, a in enumerate(node.args):
+                if isinstance(a, ast.Name) and a.id in st.env and 0 <= offset + j < len(params) and offset + j < len(args):
+                    p = params[offset + j]
+                    if p in rebound:
+                        continue
+                    newv, oldv = final.env.get(p), args[offset + j]
+                    if isinstance(newv, Poly) and isinstance(oldv, Poly) and newv.key() != oldv.key() and "upd" in repr(newv.key())[:4000]:
+                        st.env[a.id] = newv
         return res
 
     def call_method(self, recv, f, args, kwargs, st, node):
